@@ -72,9 +72,14 @@ func (fr *Frame) loopWrites(h *ssa.BasicBlock) (keys map[string]bool, open map[s
 				}
 			case ssa.CallInstruction:
 				ms := u.eng.callModset(u, x.Common())
+				inPlaceFresh := false
+				if callee := x.Common().StaticCallee(); callee != nil && (extName(callee) == "sort.Strings" || extName(callee) == "sort.Ints") && len(x.Common().Args) == 1 {
+					// sorts its operand in place: no pre-existing memory is written when the operand was allocated in the body
+					inPlaceFresh = allocatedIn(x.Common().Args[0], body, map[ssa.Value]bool{})
+				}
 				for k, op := range ms.keys {
 					keys[k] = true
-					if op {
+					if op && !inPlaceFresh {
 						open[k] = true
 					}
 				}
@@ -160,6 +165,11 @@ func (fr *Frame) enterLoop(h *ssa.BasicBlock, st *State, phiIn func(*ssa.Phi) *V
 	// 2. inv-init
 	invs := fr.loopInvariants(ord)
 	env := fr.loopEnv(h, func(p *ssa.Phi) *Val { return entryVals[p] })
+	if fr.loopPreSt == nil {
+		fr.loopPreSt, fr.loopPreEnv = map[*ssa.BasicBlock]*State{}, map[*ssa.BasicBlock]*Env{}
+	}
+	fr.loopPreSt[h], fr.loopPreEnv[h] = st.clone(), env
+	env.loopPre, env.loopPreEnv, env.at = fr.loopPreSt[h], env, h
 	for i, inv := range invs {
 		g := fr.evalBool(inv, env, st, fr.entry)
 		u.oblige(fr, st, "inv-init", fmt.Sprintf("loop%d.%d", ord, i+1), g, token.NoPos, "loop invariant holds on entry: "+inv.src)
@@ -202,8 +212,20 @@ func (fr *Frame) enterLoop(h *ssa.BasicBlock, st *State, phiIn func(*ssa.Phi) *V
 			u.fact(f)
 		}
 	}
+	// slices that enumerate the keys of a map once this loop has finished
+	for _, p := range phis {
+		if mv, ok := fr.keyEnumeration(h, p); ok {
+			if m := fr.val(mv); m != nil && m.K == vTerm {
+				if u.enumTag == nil {
+					u.enumTag = map[string]*enumInfo{}
+				}
+				u.enumTag[fr.vals[p].T] = &enumInfo{mapT: m.T, mt: mv.Type().Underlying().(*types.Map), h: h, fr: fr}
+			}
+		}
+	}
 	// 4. assume invariants
 	env2 := fr.loopEnv(h, func(p *ssa.Phi) *Val { return fr.vals[p] })
+	env2.loopPre, env2.loopPreEnv, env2.at = fr.loopPreSt[h], fr.loopPreEnv[h], h
 	for _, inv := range invs {
 		u.fact(implies(st.pc, fr.evalBool(inv, env2, st, fr.entry)))
 	}
@@ -223,6 +245,7 @@ func (fr *Frame) closeLoop(from, h *ssa.BasicBlock, st *State) {
 	}
 	back := func(p *ssa.Phi) *Val { return fr.val(p.Edges[idx]) }
 	env := fr.loopEnv(h, back)
+	env.loopPre, env.loopPreEnv, env.at = fr.loopPreSt[h], fr.loopPreEnv[h], h
 	for i, inv := range fr.loopInvariants(ord) {
 		g := fr.evalBool(inv, env, st, fr.entry)
 		u.oblige(fr, st, "inv-keep", fmt.Sprintf("loop%d.%d", ord, i+1), g, token.NoPos, "loop invariant preserved: "+inv.src)
@@ -242,6 +265,22 @@ func (fr *Frame) closeLoop(from, h *ssa.BasicBlock, st *State) {
 func (fr *Frame) autoInvariants(h *ssa.BasicBlock, phis []*ssa.Phi, pv func(*ssa.Phi) *Val) []string {
 	var out []string
 	for _, p := range phis {
+		if _, isSlice := p.Type().Underlying().(*types.Slice); isSlice && !fr.u.checkFrame {
+			// a slice that is only grown by append: its backing array is the one it had on entry of the loop
+			// or one allocated since
+			if pre := fr.loopPreSt[h]; pre != nil && fr.onlyAppended(h, p) {
+				var init *Val
+				for i, e := range p.Edges {
+					if !fr.backEdge[[2]int{h.Preds[i].Index, h.Index}] {
+						init = fr.val(e)
+					}
+				}
+				if v := pv(p); v != nil && v.K == vTerm && init != nil && init.K == vTerm {
+					out = append(out, fmt.Sprintf("(or (= (sdata %s) (sdata %s)) (>= (birth (sdata %s)) %s))", v.T, init.T, v.T, pre.now))
+				}
+			}
+			continue
+		}
 		if _, isSlice := p.Type().Underlying().(*types.Slice); isSlice && fr.u.checkFrame {
 			// accumulator slices: the backing array is nil or was allocated by this call
 			if v := pv(p); v != nil && v.K == vTerm {
@@ -283,9 +322,9 @@ func (fr *Frame) autoInvariants(h *ssa.BasicBlock, phis []*ssa.Phi, pv func(*ssa
 			if iff, ok := h.Instrs[len(h.Instrs)-1].(*ssa.If); ok {
 				if cmp, ok := iff.Cond.(*ssa.BinOp); ok && cmp.Op == token.LSS && cmp.X == ssa.Value(bo) {
 					if lv, ok := fr.vals[cmp.Y]; ok && lv.K == vTerm {
-						out = append(out, fmt.Sprintf("(< %s (ite (> %s 0) %s 1))", v.T, lv.T, lv.T))
+						out = append(out, fmt.Sprintf("(< %s (ite (> %s 0) %s 0))", v.T, lv.T, lv.T))
 					} else if lc, ok := cmp.Y.(*ssa.Const); ok {
-						out = append(out, fmt.Sprintf("(< %s %d)", v.T, max64(lc.Int64(), 1)))
+						out = append(out, fmt.Sprintf("(< %s %d)", v.T, max64(lc.Int64(), 0)))
 					}
 				}
 			}
@@ -601,4 +640,164 @@ func (fr *Frame) appendOp(s, t *Val, elem types.Type, st *State, pos token.Pos) 
 	u.fact(eq(res, fmt.Sprintf("(mkSlice %s 0 (+ %s %s) %s)", r, ls, lt, capc)))
 	u.note("append: result modelled as a fresh backing array (aliasing with the old array when capacity allows is not modelled)")
 	return term(res, s.Ty)
+}
+
+// onlyAppended: every back-edge value of the slice phi p is append(p, ...)
+func (fr *Frame) onlyAppended(h *ssa.BasicBlock, p *ssa.Phi) bool {
+	n := 0
+	for i, e := range p.Edges {
+		if !fr.backEdge[[2]int{h.Preds[i].Index, h.Index}] {
+			continue
+		}
+		n++
+		c, ok := e.(*ssa.Call)
+		if !ok {
+			return false
+		}
+		b, ok := c.Call.Value.(*ssa.Builtin)
+		if !ok || b.Name() != "append" || len(c.Call.Args) != 2 || c.Call.Args[0] != ssa.Value(p) {
+			return false
+		}
+	}
+	return n > 0
+}
+
+// keyEnumeration recognises `s := make([]K, 0, n); for k := range m { s = append(s, k) }`: the loop with header h
+// ranges over the map m, its body is one block executed once per key, and the slice phi p starts empty and
+// receives exactly append(p, k). After the loop p enumerates the keys of m, each once.
+func (fr *Frame) keyEnumeration(h *ssa.BasicBlock, p *ssa.Phi) (ssa.Value, bool) {
+	body := fr.loopBody[h]
+	if len(p.Edges) != 2 || len(body) != 2 {
+		return nil, false
+	}
+	var init, step ssa.Value
+	var bodyBlk *ssa.BasicBlock
+	for i, e := range p.Edges {
+		if fr.backEdge[[2]int{h.Preds[i].Index, h.Index}] {
+			step, bodyBlk = e, h.Preds[i]
+		} else {
+			init = e
+		}
+	}
+	if init == nil || step == nil || bodyBlk == h {
+		return nil, false
+	}
+	switch x := init.(type) {
+	case *ssa.MakeSlice:
+		if c, ok := x.Len.(*ssa.Const); !ok || c.Int64() != 0 {
+			return nil, false
+		}
+	case *ssa.Const:
+		if !x.IsNil() {
+			return nil, false
+		}
+	default:
+		return nil, false
+	}
+	// header: t = next(range m); ok = extract t #0; if ok goto body else exit
+	var nx *ssa.Next
+	for _, in := range h.Instrs {
+		if n, ok := in.(*ssa.Next); ok {
+			nx = n
+		}
+	}
+	if nx == nil || nx.IsString {
+		return nil, false
+	}
+	rg, ok := nx.Iter.(*ssa.Range)
+	if !ok {
+		return nil, false
+	}
+	if _, ok := rg.X.Type().Underlying().(*types.Map); !ok {
+		return nil, false
+	}
+	if iff, ok := h.Instrs[len(h.Instrs)-1].(*ssa.If); !ok || len(h.Succs) != 2 || h.Succs[0] != bodyBlk || iff == nil {
+		return nil, false
+	}
+	// body: exactly one successor (the header); step = append(p, [k])
+	if len(bodyBlk.Succs) != 1 || bodyBlk.Succs[0] != h {
+		return nil, false
+	}
+	c, ok := step.(*ssa.Call)
+	if !ok || c.Block() != bodyBlk {
+		return nil, false
+	}
+	if b, ok := c.Call.Value.(*ssa.Builtin); !ok || b.Name() != "append" || len(c.Call.Args) != 2 || c.Call.Args[0] != ssa.Value(p) {
+		return nil, false
+	}
+	sl, ok := c.Call.Args[1].(*ssa.Slice)
+	if !ok || sl.Low != nil || sl.High != nil {
+		return nil, false
+	}
+	al, ok := sl.X.(*ssa.Alloc)
+	if !ok {
+		return nil, false
+	}
+	at, ok := al.Type().(*types.Pointer).Elem().Underlying().(*types.Array)
+	if !ok || at.Len() != 1 {
+		return nil, false
+	}
+	// the single element stored into the variadic array is the key
+	stores := 0
+	okKey := false
+	for _, in := range bodyBlk.Instrs {
+		st, ok := in.(*ssa.Store)
+		if !ok {
+			continue
+		}
+		ia, ok := st.Addr.(*ssa.IndexAddr)
+		if !ok || ia.X != ssa.Value(al) {
+			continue
+		}
+		stores++
+		if ex, ok := st.Val.(*ssa.Extract); ok && ex.Tuple == ssa.Value(nx) && ex.Index == 1 {
+			okKey = true
+		}
+	}
+	if stores != 1 || !okKey {
+		return nil, false
+	}
+	return rg.X, true
+}
+
+type enumInfo struct {
+	mapT string
+	mt   *types.Map
+	h    *ssa.BasicBlock
+	fr   *Frame
+}
+
+// sortedKeyFn: (m, i) -> the i-th smallest key of map m
+func (u *Unit) sortedKeyFn(mt *types.Map) string {
+	ks := u.w.sortOf(mt.Key())
+	return u.fn("sortedkey_"+sortShort(ks), []string{"Ref", "Int"}, ks)
+}
+
+// allocatedIn: the backing array of the slice value v was certainly allocated inside the given blocks
+func allocatedIn(v ssa.Value, body map[*ssa.BasicBlock]bool, seen map[ssa.Value]bool) bool {
+	if seen[v] {
+		return true
+	}
+	seen[v] = true
+	switch x := v.(type) {
+	case *ssa.MakeSlice:
+		return body[x.Block()]
+	case *ssa.Slice:
+		return allocatedIn(x.X, body, seen)
+	case *ssa.Phi:
+		if !body[x.Block()] {
+			return false
+		}
+		for _, e := range x.Edges {
+			if !allocatedIn(e, body, seen) {
+				return false
+			}
+		}
+		return true
+	case *ssa.Call:
+		if b, ok := x.Call.Value.(*ssa.Builtin); ok && b.Name() == "append" && body[x.Block()] {
+			return allocatedIn(x.Call.Args[0], body, seen)
+		}
+	}
+	return false
 }
